@@ -59,6 +59,10 @@ CLAIMED = {
    text="Seeded sessions: a clean generated program is typed, optionally run to its end or to an injected Ctrl-C (leaving FOR/GOSUB frames, a CONT point and defined user functions), then damaged by typed edits (dangling reference in each of nine referencing forms, stray WHILE / WEND, token-level syntax damage, on new lines or in front of existing lines, with ASCII and multi-byte statements before the fault), then with tracing on one of 13 doors into the program is tried (RUN, RUN n, GOTO n, GOSUB n, ON..GOTO, ON..GOSUB, IF..THEN n, FOR..GOSUB..NEXT, CONT, RETURN, NEXT, a direct call of a user function, load-and-run from the SimDisk), optionally followed by CONT. Invariants: every diagnostic names a listed line and a character range inside its listed text, UNDEFINED LINE ranges spell exactly a missing number, WHILE/WEND ranges the keyword, LIST underlines exactly the reported ranges, every planted fault is reported; through the door no trace token, output, prompt or variable change; harmless direct statements still work.",
    note="Trusted: the damage placement (faults only added, never by modifying existing statements, so the planted set is the expected set). An empty range at the end of a line counts as inside it. The value of a direct FN call is not judged here.",
    tech="deterministic simulation: seeded edit/run/stop histories with injected interrupts, every door into a damaged program under seeded slice schedules, diagnostic-range invariants against the listing snapshot"),
+ "C18": dict(cat="exploration", ref="DESIGN.md section 5 C18",
+   text="Seeded long simulated runs. No-residue clause: loop bodies composed of 16 statement families (PRINT lists, LET with temporaries, SWAP, MID$=, READ+RESTORE, IF/ELSE, ON..GOSUB and ON..GOTO with the selector in and out of range, completed inner FOR / WHILE, GOSUB incl. RETURN out of an open FOR, nested FN calls, INPUT with REDO cycles, DIM+ERASE, forward GOTO, INKEY$) wrapped as FOR / GOTO-counter / WHILE loop, as a subroutine called in a loop (300 000 iterations) or typed as a 70 000-iteration direct loop; a program restarting itself with RUN from inside GOSUB/FOR 70 000 times; one direct line typed 70 000 times; three arrays of 30 001 elements filled and zeroed in turn through several zero-valued expressions per type. Limits clause: GOSUB recursion, FN recursion, re-entered FOR, more than 65 535 variables, DATA values and opcodes must end in ?OUT OF MEMORY without crash or hang, then the canary line, an intact listing, NEW or CLEAR and a small program equal to a fresh runtime; a full variable pool must accept zeroing and refilling. Verdicts are behavioural (the interpreter's own OUT OF MEMORY); the probe hook only decides whether a loop that shows no growth between two STOPs 1000 iterations apart may end early (10% run to the end regardless).",
+   note="Trusted: the probe hook's sizes for the early-exit decision. Loop bodies failing with another error are discarded. Growth too slow to exhaust a pool within 300 000 iterations is counted, not reported.",
+   tech="deterministic simulation: long simulated runs with pool-exhaustion faults and recovery check (canary, listing, fresh-twin comparison after NEW/CLEAR), probe-guided early exit"),
 }
 
 NOT_APPLICABLE = {
@@ -91,7 +95,7 @@ def main():
     na = []
     for pid in props:
         if pid in CLAIMED: continue
-        reason = NOT_APPLICABLE.get(pid, "check not built yet in this round: planned in DESIGN.md section 5, no claim is made until it exists")
+        reason = NOT_APPLICABLE.get(pid, "no check built for it: no claim is made")
         na.append({"property_id": pid, "reason": reason})
     m = {
         "version": 1,
